@@ -82,6 +82,12 @@ def programs(tier):
                     if tier == "quick" and vtag != "sole" and ptag not in ("left-only", "right-only", "both"):
                         continue
                     progs.append(Program(text, [srcL, srcR], ordered=False, family="F03", note=f"merge-{how}/{ptag}/{vtag}", env_globals={"dx": dx}))
+            # several filters on one join result (each is a consumer the others' rules have to respect; rule pairs that undo each other loop)
+            base = f"L.merge(R, on='a', how={how!r})"
+            for f1, f2 in (("(M.c > 0) & (M.e < 2)", "M.c > 1"), ("(M.c > 0) & (M.e < 2)", "M.c > 0"), ("(M.b_x < 2) & (M.e > 0)", "M.e > 1"), ("M.c > 1", "M.e < 2"),
+                           ("(M.c > 0) & (M.e < 2)", "(M.c > 1) & (M.b_y < 3)")):
+                progs.append(Program(f"(lambda M: dx.concat([M[{f1}], M[{f2}]]))({base})", [srcL, srcR], ordered=False, family="F03", note=f"merge-{how}/two-filters", env_globals={"dx": dx}))
+                progs.append(Program(f"(lambda M: M[{f1}].c.sum() + M[{f2}].e.sum())({base})", [srcL, srcR], ordered=False, family="F03", note=f"merge-{how}/two-filters-reduced", env_globals={"dx": dx}))
             # a non-key column present on both sides with one empty suffix: the plain name belongs to one side only
             for suf, plain in ((("", "_r"), "left"), (("_l", ""), "right"), (("_l", "_r"), None)):
                 names = {"left": "b" + suf[0], "right": "b" + suf[1]}
